@@ -12,7 +12,8 @@ _cache = {}
 
 
 def extraction_exits(ctx, fi, context):
-    key = (id(ctx.P), fi.qualname, tuple(sorted(context.items())))
+    _cache = ctx.P.__dict__.setdefault('_extraction_cache', {})     # per program: ids of dead programs are reused
+    key = (fi.qualname, tuple(sorted(context.items())))
     if key not in _cache:
         ev = Evaluator(ctx.P)
         exits = ev.run(fi, context=context)
@@ -161,7 +162,7 @@ def rule_residual_invariant(ctx, rid, fi, extractor_pred, context=None, arg_of=N
 
     def acc_sum(env):
         t = env.get(acc)
-        if t is None or t == ('list', ()) or t == ('tuple', ()):
+        if t is None or t == ('list', ()) or t == ('tuple', ()) or t == NONE:
             return Poly()
         return alg.poly(sumcols(t))
     # (a) establishment / direct form at each execution of the call
@@ -226,147 +227,168 @@ def _is_false(node):
     return isinstance(node, ast.Constant) and node.value is False
 
 
-def rule_licensed_exits(ctx, rid, fi, extractor_pred, cap='max_imfs', thresh='sift_thresh',
-                        extra_licensed=()):
-    """Every way of leaving the layer loop is one of: the cap test, the sift
-    threshold on the component just extracted, the flag returned by the extraction."""
-    P = ctx.P
-    loops = loop_containing_call(P, fi, extractor_pred)
-    if len(loops) != 1:
-        raise AnalysisError('%s: expected one layer loop, found %d' % (fi.qualname, len(loops)))
-    loop, callnode, callee = loops[0]
-    flag = _flag_var(loop)
-    if flag is None:
-        ctx.undecided(rid, fi, 'loop condition', 'layer loop is not controlled by a flag variable: %s'
-                      % unparse(loop.test), node=loop)
-        return
-    # variable holding the component extracted in this iteration
-    comp_var = None
-    flag_from_callee = False
-    for n in ast.walk(loop):
-        if isinstance(n, ast.Assign) and n.value is callnode:
-            t = n.targets[0]
-            if isinstance(t, ast.Tuple) and len(t.elts) == 2 and all(isinstance(x, ast.Name) for x in t.elts):
-                comp_var = t.elts[0].id
-                if t.elts[1].id == flag:
-                    flag_from_callee = True
-    if comp_var is None:
-        ctx.undecided(rid, fi, 'extraction result binding', 'cannot find `component, flag = extraction(...)`',
-                      node=callnode)
-        return
-    found = {'cap': 0, 'threshold': 0, 'flag': 1 if flag_from_callee else 0}
-    for n in ast.walk(loop):
-        exit_stmt = None
-        if isinstance(n, ast.Assign) and any(isinstance(t, ast.Name) and t.id == flag for t in n.targets):
-            if n.value is callnode:
-                continue
-            if isinstance(n.value, ast.Constant) and n.value.value is True:
-                continue
-            exit_stmt = n
-        elif isinstance(n, (ast.Break, ast.Return)) and _innermost_loop(fi, n) is loop:
-            exit_stmt = n
-        elif isinstance(n, ast.Assign) and n.value is not callnode and any(
-                isinstance(t, ast.Tuple) and any(isinstance(x, ast.Name) and x.id == flag for x in t.elts)
-                for t in n.targets):
-            exit_stmt = n
-        if exit_stmt is None:
-            continue
-        guards = guards_of(fi, exit_stmt, upto=loop)
-        kind = _classify_exit(guards, cap, thresh, comp_var, fi)
-        if kind in extra_licensed:
-            continue
-        if kind is None:
-            ctx.violation(rid, fi, 'unlicensed loop exit: ' + _norm_guard(guards),
-                          'the layer loop can stop for a reason other than cap / sift threshold / extraction flag',
-                          node=exit_stmt, expected='guard in {cap reached, |component| sum < threshold}',
-                          found=' and '.join(('' if pol else 'not ') + unparse(t) for t, pol in guards) or 'unconditional')
-        else:
-            found[kind] += 1
-    for kind, what in (('cap', 'IMF cap'), ('threshold', 'sift threshold'), ('flag', 'extraction flag')):
-        if found[kind] >= 1:
-            ctx.passed(rid, fi, 'licensed exit: ' + what, '%d site(s)' % found[kind], node=loop)
-        else:
-            ctx.violation(rid, fi, 'licensed exit: ' + what,
-                          'the layer loop no longer stops on the %s' % what, node=loop,
-                          expected='an exit guarded by the %s' % what, found='none')
+def _has_call(t, dotted):
+    return any(x[0] == 'call' and x[1] in dotted for x in subterms(t))
 
 
-def _innermost_loop(fi, node):
-    from .common import enclosing_chain
-    inner = None
-    for n, field in enclosing_chain(fi, node):
-        if isinstance(n, (ast.While, ast.For)) and field == 'body':
-            inner = n
+def find_loop(ev, dotted, kind='while'):
+    """The innermost evaluated loop in whose iterations a call to one of `dotted` is made: decided on the
+    evaluated iteration ends (new terms in the environment or in the conditions), so the call may sit in a helper."""
+    cands = []
+    for node, summs in ev.loops_seen.items():
+        hit = False
+        for sm in summs:
+            old = set(sm.entry_env.values())
+            for passno, how, e in sm.ends:
+                for c, truth, ln in e.conds[sm.n_entry_conds:]:
+                    if _has_call(c, dotted):
+                        hit = True
+                for v in e.env.values():
+                    if isinstance(v, tuple) and v not in old and _has_call(v, dotted):
+                        hit = True
+        if hit:
+            cands.append(node)
+    inner = [n for n in cands if not any(m is not n and any(x is m for x in ast.walk(n)) for m in cands)]
     return inner
 
 
-def _norm_guard(guards):
-    return ' and '.join(('' if pol else 'not ') + unparse(t) for t, pol in guards)[:80] or 'unconditional'
+def _eff(op, truth):
+    neg = {'==': '!=', '!=': '==', '<': '>=', '>=': '<', '>': '<=', '<=': '>', 'is': 'isnot', 'isnot': 'is'}
+    return op if truth else neg.get(op)
 
 
-def _conjuncts(guards):
-    out = []
-    for t, pol in guards:
-        if pol and isinstance(t, ast.BoolOp) and isinstance(t.op, ast.And):
-            out.extend((v, True) for v in t.values)
-        else:
-            out.append((t, pol))
-    return out
+def _flip(op):
+    return {'<': '>', '>': '<', '<=': '>=', '>=': '<=', '==': '==', '!=': '!='}.get(op)
 
 
-def _mentions(node, name):
-    return any(isinstance(n, ast.Name) and n.id == name for n in ast.walk(node))
-
-
-def _classify_exit(guards, cap, thresh, comp_var, fi):
-    cj = _conjuncts(guards)
-    if not cj:
-        return None
-    # cap: {cap is not None, <counter expr> == / >= <cap expr>}
-    cap_guard = False
-    cap_cmp = False
-    other = []
-    for t, pol in cj:
-        if pol and isinstance(t, ast.Compare) and len(t.ops) == 1 and isinstance(t.ops[0], ast.IsNot) \
-                and isinstance(t.left, ast.Name) and t.left.id == cap and const_value(t.comparators[0], 0) is None:
-            cap_guard = True
-        elif pol and isinstance(t, ast.Compare) and len(t.ops) == 1 \
-                and isinstance(t.ops[0], (ast.Eq, ast.GtE, ast.Gt)) \
-                and (_mentions(t.comparators[0], cap) != _mentions(t.left, cap)):
-            cap_cmp = True
-        else:
-            other.append((t, pol))
-    if cap_cmp and not other:
-        # `cap is not None` may be established earlier (e.g. cap replaced by a number before the loop)
-        return 'cap'
-    # threshold: reduce(|comp|) < thresh
-    if len(cj) == 1:
-        t, pol = cj[0]
-        if pol and isinstance(t, ast.Compare) and len(t.ops) == 1:
-            l, r, op = t.left, t.comparators[0], t.ops[0]
-            if isinstance(op, (ast.Gt, ast.GtE)):
-                l, r = r, l
-                op = ast.Lt()
-            if isinstance(op, (ast.Lt, ast.LtE)) and isinstance(r, ast.Name) and r.id == thresh \
-                    and _is_abs_reduce(l, comp_var):
-                return 'threshold'
-    return None
-
-
-def _is_abs_reduce(node, var):
-    """np.abs(var).sum() | np.sum(np.abs(var)) | np.abs(var).mean() ..."""
-    def is_abs(n):
-        return isinstance(n, ast.Call) and ((isinstance(n.func, ast.Attribute) and n.func.attr in ('abs', 'absolute', 'fabs'))
-                                            or (isinstance(n.func, ast.Name) and n.func.id == 'abs')) \
-            and len(n.args) == 1 and isinstance(n.args[0], ast.Name) and n.args[0].id == var
-    if isinstance(node, ast.Call) and isinstance(node.func, ast.Attribute) and node.func.attr in ('sum', 'mean') \
-            and not node.args:
-        if is_abs(node.func.value):
-            return True
-    if isinstance(node, ast.Call) and isinstance(node.func, ast.Attribute) and node.func.attr in ('sum', 'mean') \
-            and len(node.args) == 1 and is_abs(node.args[0]):
+def _is_abs_reduce_term(t, is_comp):
+    """sum/mean over |component|."""
+    def is_abs(x):
+        return x[0] == 'call' and x[1] in ('numpy.abs', 'numpy.absolute', 'numpy.fabs', 'builtins.abs') \
+            and len(x[2]) == 1 and is_comp(x[2][0])
+    if t[0] == 'meth' and t[1] in ('sum', 'mean') and not t[3] and is_abs(t[2]):
+        return True
+    if t[0] == 'call' and t[1] in ('numpy.sum', 'numpy.mean', 'numpy.nansum', 'builtins.sum') and len(t[2]) == 1 \
+            and is_abs(t[2][0]):
+        return True
+    if t[0] == 'call' and t[1] == 'numpy.linalg.norm' and len(t[2]) >= 1 and is_comp(t[2][0]) \
+            and (t[2][1:] == (C(1),) or dict(t[3]).get('ord') == C(1)):
         return True
     return False
+
+
+def _layer_evidence(e, n0, cap, thresh, extractors):
+    """Which of the three licensed stop reasons fired / provably did not fire in this iteration.
+    -> {'cap': True|False|None, 'threshold': ..., 'flag': ...}   (None = no evidence on this path)"""
+    ev = {'cap': None, 'threshold': None, 'flag': None}
+    capv = {S(cap)}
+    if isinstance(e.env.get(cap), tuple) and not is_c(e.env[cap]):
+        capv.add(e.env[cap])
+    thv = {S(thresh)}
+    if isinstance(e.env.get(thresh), tuple) and not is_c(e.env[thresh]):
+        thv.add(e.env[thresh])
+
+    def mentions(t, vals):
+        return any(x in vals for x in subterms(t))
+
+    def is_comp(t):
+        return t[0] == 'sub' and t[2] == C(0) and t[1][0] == 'call' and t[1][1] in extractors
+
+    def is_flag(t):
+        return t[0] == 'sub' and t[2] == C(1) and t[1][0] == 'call' and t[1][1] in extractors
+
+    def upd(k, v):
+        # "fired" on any licensed condition wins over "not fired" on another of the same kind
+        ev[k] = v if ev[k] is None else (ev[k] or v)
+    for i, (c, truth, ln) in enumerate(e.conds):
+        initer = i >= n0
+        if c[0] == 'cmp' and c[1] in ('is', 'isnot') and c[3] == NONE and c[2] in capv:
+            if _eff(c[1], truth) == 'is':
+                upd('cap', False)            # no cap requested
+            continue
+        if not initer:
+            continue
+        if c[0] == 'not' and len(c) == 2:
+            c, truth = c[1], not truth
+        if is_flag(c):
+            upd('flag', not truth)
+            continue
+        if c[0] == 'cmp' and c[1] in ('==', '!=') and is_flag(c[2]) and is_c(c[3]) and isinstance(c[3][1], bool):
+            upd('flag', (_eff(c[1], truth) == '==') == (c[3][1] is False))
+            continue
+        if c[0] != 'cmp' or c[1] not in ('==', '!=', '<', '<=', '>', '>='):
+            continue
+        op, a, b = c[1], c[2], c[3]
+        if mentions(a, capv) != mentions(b, capv):
+            if mentions(a, capv):
+                op, a, b = _flip(op), b, a
+            upd('cap', _eff(op, truth) in ('==', '>=', '>'))
+            continue
+        if (a in thv) != (b in thv):
+            if a in thv:
+                op, a, b = _flip(op), b, a
+            if _is_abs_reduce_term(a, is_comp):
+                upd('threshold', _eff(op, truth) in ('<', '<='))
+    return ev
+
+
+def rule_licensed_exits(ctx, rid, fi, extractor_pred=None, cap='max_imfs', thresh='sift_thresh',
+                        extractors=('emd.sift.get_next_imf',), context=None):
+    """Every way of leaving the layer loop is one of: the cap test, the sift threshold on the component just
+    extracted, the flag returned by the extraction - and each of the three does stop the loop.  Decided on the
+    evaluated ends of one loop iteration (first and later iterations): an iteration that leaves the loop must
+    have a licensed condition that fired; an iteration that continues must show all three not firing."""
+    ev = Evaluator(ctx.P)
+    exits = ev.run(fi, context=context or {})
+    ctx.paths += len(exits)
+    loops = find_loop(ev, set(extractors))
+    if len(loops) != 1:
+        raise AnalysisError('%s: expected one layer loop around the extraction, found %d' % (fi.qualname, len(loops)))
+    loop = loops[0]
+    names = {'cap': 'IMF cap', 'threshold': 'sift threshold', 'flag': 'extraction flag'}
+    bad_leave = None
+    bad_cont = {}
+    n_leave = {'cap': 0, 'threshold': 0, 'flag': 0}
+    n_cont = 0
+    for sm in ev.loops_seen[loop]:
+        for passno, how, e in sm.ends:
+            if how == 'raise':
+                continue
+            evd = _layer_evidence(e, sm.n_entry_conds, cap, thresh, set(extractors))
+            if how == 'continue':
+                n_cont += 1
+                for k in names:
+                    if evd[k] is not False and k not in bad_cont:
+                        bad_cont[k] = (e, 'fired but the loop continues' if evd[k] else
+                                       'never tested on a path that continues the loop')
+            else:
+                fired = [k for k in names if evd[k]]
+                for k in fired:
+                    n_leave[k] += 1
+                if not fired and bad_leave is None:
+                    bad_leave = (how, e, sm)
+    if bad_leave is not None:
+        how, e, sm = bad_leave
+        ic = [('' if t else 'not ') + show(c)[:70] for c, t, ln in e.conds[sm.n_entry_conds:]]
+        ctx.violation(rid, fi, 'unlicensed loop exit',
+                      'the layer loop can stop for a reason other than cap / sift threshold / extraction flag',
+                      node=loop, expected='a fired condition in {cap reached, |component| sum < threshold, '
+                      'extraction flag False}', found='; '.join(ic[-6:]) or 'unconditional', path=trace_tail(e, 12))
+    for k, what in names.items():
+        if k in bad_cont:
+            e, why = bad_cont[k]
+            ctx.violation(rid, fi, 'licensed exit: ' + what,
+                          'the layer loop no longer stops on the %s (%s)' % (what, why), node=loop,
+                          expected='every continuing iteration shows the %s not firing' % what, found=why,
+                          path=trace_tail(e, 12))
+        elif n_leave[k] == 0:
+            ctx.violation(rid, fi, 'licensed exit: ' + what,
+                          'the layer loop no longer stops on the %s' % what, node=loop,
+                          expected='an exit guarded by the %s' % what, found='none')
+        else:
+            ctx.passed(rid, fi, 'licensed exit: ' + what,
+                       '%d leaving iteration ends fired on it; %d continuing ends show it not firing'
+                       % (n_leave[k], n_cont), node=loop)
 
 
 # ----------------------------------------------------------------------------------------------
@@ -642,13 +664,11 @@ def rule_iterate_algebra(ctx, rid, gni, step_formal='env_step_size'):
             continue
         n_upd = 0
         err = None
-        for kind, b in summ.body_states:
-            ev = Evaluator(P)
-            tr = ev.truth(_term_of_test(loop.test, b), b)
-            if tr is False:
-                continue
+        for passno, how, b in summ.ends:
+            if how != 'continue':
+                continue            # iteration ends that leave the loop are covered by (a)
             nv = alg.poly(b.env[itvar])
-            it = X if kind == 'back' else H
+            it = X if passno == '1' else H
             why = _check_mean_removed(alg, nv, it, step)
             n_upd += 1
             if why:
@@ -662,12 +682,6 @@ def rule_iterate_algebra(ctx, rid, gni, step_formal='env_step_size'):
             ctx.violation(rid, gni, c2, 'no continuing path through the sifting loop')
         else:
             ctx.passed(rid, gni, c2, '%d continuing back-edge states' % n_upd)
-
-
-def _term_of_test(test, st):
-    if isinstance(test, ast.Name):
-        return st.env.get(test.id, S(test.id))
-    raise AnalysisError('loop test is not a flag variable', node=test)
 
 
 STOP_FUNCS = {'sd': 'emd.sift.sd_stop', 'rilling': 'emd.sift.rilling_stop', 'fixed': 'emd.sift.fixed_stop'}
@@ -915,74 +929,82 @@ def _floor_fraction_of(t, limit):
     return False
 
 
+def _sift_evidence(e, n0):
+    """-> {'stop': True|False|None, 'none': True|False|None} for one end of a sifting iteration:
+    did the stop rule fire / was an envelope of the iterate missing (None = not tested on this path)."""
+    evd = {'stop': None, 'none': None}
+    stops = set(STOP_FUNCS.values())
+
+    def is_stop(t):
+        if t[0] == 'sub' and t[2] == C(0) and t[1][0] == 'call' and t[1][1] in stops:
+            return True
+        return t[0] == 'call' and t[1] in stops
+
+    def upd(k, v):
+        evd[k] = v if evd[k] is None else (evd[k] or v)
+    for c, truth, ln in e.conds[n0:]:
+        if c[0] == 'not' and len(c) == 2:
+            c, truth = c[1], not truth
+        if is_stop(c):
+            upd('stop', truth)
+        elif c[0] == 'cmp' and c[1] in ('is', 'isnot') and c[3] == NONE and c[2][0] == 'call' and c[2][1] == ENV:
+            upd('none', _eff(c[1], truth) == 'is')
+    return evd
+
+
 def rule_extraction_loop_exits(ctx, rid, gni):
-    """The sifting loop is left only because the stop rule fired or an envelope is missing."""
-    P = ctx.P
-    itvar, loop = _iterate_var(P, gni)
-    flag = _flag_var(loop)
-    if flag is None:
-        ctx.undecided(rid, gni, 'sifting loop condition', 'not a flag variable', node=loop)
-        return
-    # names assigned from stop functions
-    stop_vars = set()
-    env_vars = set()
-    for n in ast.walk(loop):
-        if isinstance(n, ast.Assign) and isinstance(n.value, ast.Call):
-            ca = P.resolve_callee(gni.module, gni, n.value.func)
-            if ca.kind == 'repo' and ca.dotted in STOP_FUNCS.values():
-                t = n.targets[0]
-                if isinstance(t, ast.Tuple):
-                    t = t.elts[0]
-                if isinstance(t, ast.Name):
-                    stop_vars.add(t.id)
-            if ca.kind == 'repo' and ca.dotted == ENV:
-                t = n.targets[0]
-                if isinstance(t, ast.Name):
-                    env_vars.add(t.id)
-    n_ok = 0
-    for n in ast.walk(loop):
-        ex = None
-        if isinstance(n, ast.Assign) and any(isinstance(t, ast.Name) and t.id == flag for t in n.targets):
-            if isinstance(n.value, ast.Constant) and n.value.value is True:
-                continue
-            ex = n
-        elif isinstance(n, (ast.Break, ast.Return)) and _innermost_loop(gni, n) is loop:
-            ex = n
-        if ex is None:
-            continue
-        guards = _conjuncts(guards_of(gni, ex, upto=loop))
-        kinds = []
-        for t, pol in guards:
-            if pol and isinstance(t, ast.Name) and t.id in stop_vars:
-                kinds.append('stop')
-            elif pol and _is_none_test(t, env_vars):
-                kinds.append('none')
-            else:
-                kinds.append(None)
-        if kinds and all(k is not None for k in kinds) and len(set(kinds)) == 1:
-            n_ok += 1
-            continue
-        ctx.violation(rid, gni, 'unlicensed exit of the sifting loop: ' + _norm_guard(guards_of(gni, ex, upto=loop)),
-                      'the sifting loop can be left for a reason other than "stop rule fired" or "envelope missing" '
-                      '(an unconverged iterate would be returned silently)', node=ex)
-    if n_ok >= 2:
-        ctx.passed(rid, gni, 'sifting loop exits are {stop fired, envelope missing}', '%d exit sites' % n_ok, node=loop)
+    """The sifting loop is left only because the stop rule fired or an envelope is missing, and it is left whenever
+    one of the two happens: decided on the evaluated ends of one sifting iteration per stop rule."""
+    n_leave = {'stop': 0, 'none': 0}
+    n_cont = 0
+    loopnode = None
+    for sm_name in STOP_METHODS:
+        ev = Evaluator(ctx.P)
+        exits = ev.run(gni, context={'stop_method': sm_name, 'energy_thresh': None})
+        ctx.paths += len(exits)
+        loops = find_loop(ev, {ENV})
+        if len(loops) != 1:
+            raise AnalysisError('%s: expected one sifting loop around the envelope calls, found %d'
+                                % (gni.qualname, len(loops)))
+        loopnode = loops[0]
+        for sm in ev.loops_seen[loopnode]:
+            for passno, how, e in sm.ends:
+                if how == 'raise':
+                    continue
+                evd = _sift_evidence(e, sm.n_entry_conds)
+                if how == 'continue':
+                    n_cont += 1
+                    if evd['stop'] or evd['none']:
+                        ctx.violation(rid, gni, 'sifting loop exits are {stop fired, envelope missing}',
+                                      'the sifting loop continues although %s (stop_method=%s)'
+                                      % ('the stop rule fired' if evd['stop'] else 'an envelope is missing', sm_name),
+                                      node=loopnode, path=trace_tail(e, 12))
+                        return
+                    if evd['stop'] is None:
+                        ctx.violation(rid, gni, 'sifting loop exits are {stop fired, envelope missing}',
+                                      'an iteration continues the sifting loop without consulting the stop rule '
+                                      '(stop_method=%s)' % sm_name, node=loopnode, path=trace_tail(e, 12))
+                        return
+                    continue
+                fired = [k for k in ('stop', 'none') if evd[k]]
+                for k in fired:
+                    n_leave[k] += 1
+                if not fired:
+                    ic = [('' if t else 'not ') + show(c)[:70] for c, t, ln in e.conds[sm.n_entry_conds:]]
+                    ctx.violation(rid, gni, 'unlicensed exit of the sifting loop',
+                                  'the sifting loop can be left for a reason other than "stop rule fired" or "envelope '
+                                  'missing" (an unconverged iterate would be returned silently; stop_method=%s)' % sm_name,
+                                  node=loopnode, found='; '.join(ic[-6:]) or 'unconditional', path=trace_tail(e, 12))
+                    return
+    if n_leave['stop'] >= 3 and n_leave['none'] >= 3:
+        ctx.passed(rid, gni, 'sifting loop exits are {stop fired, envelope missing}',
+                   '%d leaving ends on the stop rule, %d on a missing envelope, %d continuing ends with neither '
+                   '(3 stop rules, first and later iterations)' % (n_leave['stop'], n_leave['none'], n_cont),
+                   node=loopnode)
     else:
         ctx.violation(rid, gni, 'sifting loop exits are {stop fired, envelope missing}',
-                      'expected an exit on the stop rule and one on missing envelopes, found %d' % n_ok, node=loop)
-
-
-def _is_none_test(t, env_vars):
-    """`u is None or l is None` over envelope variables (any non-empty subset)."""
-    parts = t.values if isinstance(t, ast.BoolOp) and isinstance(t.op, ast.Or) else [t]
-    if not parts:
-        return False
-    for p in parts:
-        if not (isinstance(p, ast.Compare) and len(p.ops) == 1 and isinstance(p.ops[0], ast.Is)
-                and isinstance(p.left, ast.Name) and p.left.id in env_vars
-                and isinstance(p.comparators[0], ast.Constant) and p.comparators[0].value is None):
-            return False
-    return True
+                      'expected an exit on the stop rule and one on missing envelopes for each stop rule, found %s'
+                      % n_leave, node=loopnode)
 
 
 def rule_energy_stop(ctx, rid, gni):
